@@ -10,6 +10,7 @@
 #include <fcntl.h>
 #include <functional>
 #include <poll.h>
+#include <sched.h>
 #include <sstream>
 #include <sys/mman.h>
 #include <sys/stat.h>
@@ -372,6 +373,90 @@ static IsoResult run_isolated(const Plan &plan)
 	return r;
 }
 
+void adopt_outcome(RunCtx &ctx, const Outcome &o)
+{
+	for (auto &k : o.cov)
+		ctx.cov.insert(k);
+	for (auto &kv : o.counters)
+		ctx.counters[kv.first] += kv.second;
+	ctx.nontrivial = ctx.nontrivial || o.nontrivial;
+	ctx.log("nested execution: events=%llu hash=%016llx class=%s", (unsigned long long)o.nevents, (unsigned long long)o.loghash, o.violated ? o.v.cls.c_str() : "none");
+	ctx.nevents += o.nevents;
+	if (o.violated)
+		ctx.note_fail(o.v.cls, o.v.detail);
+}
+bool execute_plan_fresh_process(Property &prop, const Plan &plan, Outcome &out)
+{
+	std::string path = tmp_path("fresh-plan"), outp = tmp_path("fresh-out"), errp = tmp_path("fresh-err");
+	write_file(path, plan.to_text());
+	pid_t pid = fork();
+	if (pid < 0)
+		return false;
+	if (pid == 0)
+	{
+		int o = open(outp.c_str(), O_WRONLY | O_CREAT | O_TRUNC, 0644);
+		int e = open(errp.c_str(), O_WRONLY | O_CREAT | O_TRUNC, 0644);
+		dup2(o, 1);
+		dup2(e, 2);
+		setenv("JSIM_EMIT_COV", "1", 1);
+		alarm(60);
+		execl(g_exe_path, g_exe_path, prop.id(), "--replay", path.c_str(), (char *)nullptr);
+		_exit(126);
+	}
+	int status = 0;
+	waitpid(pid, &status, 0);
+	std::string txt, err;
+	read_file(outp, txt);
+	read_file(errp, err);
+	unlink(outp.c_str());
+	unlink(errp.c_str());
+	unlink(path.c_str());
+	out = Outcome();
+	std::istringstream in(txt);
+	std::string line;
+	bool got = false;
+	while (std::getline(in, line))
+	{
+		if (line.rfind("COV ", 0) == 0)
+			out.cov.insert(line.substr(4));
+		else if (line.rfind("CNT ", 0) == 0)
+		{
+			size_t sp = line.rfind(' ');
+			out.counters[line.substr(4, sp - 4)] += strtoull(line.c_str() + sp + 1, nullptr, 10);
+		}
+		else if (line.rfind("NONTRIVIAL ", 0) == 0)
+			out.nontrivial = line[11] == '1';
+		else if (line.rfind("REPLAY-RESULT ", 0) == 0)
+		{
+			got = true;
+			std::istringstream ls(line.substr(14));
+			std::string w;
+			while (ls >> w)
+			{
+				if (w.rfind("class=", 0) == 0 && w != "class=none")
+				{
+					out.violated = true;
+					out.v.cls = w.substr(6);
+				}
+				else if (w.rfind("hash=", 0) == 0)
+					out.loghash = strtoull(w.substr(5).c_str(), nullptr, 16);
+				else if (w.rfind("events=", 0) == 0)
+					out.nevents = strtoull(w.substr(7).c_str(), nullptr, 10);
+			}
+		}
+		else if (line.rfind("DETAIL ", 0) == 0)
+			out.v.detail = line.substr(7);
+	}
+	if (!got)
+	{
+		// the fresh process died: classify like any crash
+		out.violated = true;
+		out.v.cls = (WIFSIGNALED(status) && WTERMSIG(status) == SIGALRM) ? "hang" : classify_crash(status, err);
+		out.v.detail = "fresh-process execution died: " + (err.size() > 300 ? err.substr(err.size() - 300) : err);
+	}
+	return true;
+}
+
 // ------------------------------------------------------------------ shrinking
 struct Shrinker
 {
@@ -634,6 +719,15 @@ static std::string replay_dir(const std::string &prop)
 // worker: explore indices start, start+W, ... ; report through fd
 static void worker_main(Property &prop, const Args &a, int w, uint64_t start, uint64_t total, int fd, WorkerShared *sh, double t_end)
 {
+	if (std::string(prop.variant()) == "thr")
+	{
+		// all threads of one simulated run take turns: keep them on one CPU so hand-offs are not cross-CPU wake-ups
+		long ncpu = sysconf(_SC_NPROCESSORS_ONLN);
+		cpu_set_t set;
+		CPU_ZERO(&set);
+		CPU_SET((unsigned)(w % (ncpu > 0 ? ncpu : 1)), &set);
+		sched_setaffinity(0, sizeof set, &set);
+	}
 	prop.process_init(proc_seed_of(a, start));
 	Tally t;
 	int reported = 0;
@@ -671,6 +765,7 @@ static void worker_main(Property &prop, const Args &a, int w, uint64_t start, ui
 		if (!o.violated)
 			continue;
 		// ---- violation: determinism gate (same plan again, same process) then shrink
+		sh->inflight = i; // a crash while re-running / shrinking is attributed to this run as well
 		std::string cls = sanitize_cls(o.v.cls);
 		if (o.refine_op >= 0 && (size_t)o.refine_op < plan.ops.size())
 		{
@@ -746,6 +841,7 @@ static void worker_main(Property &prop, const Args &a, int w, uint64_t start, ui
 		write_file(path, best.to_text());
 		send_line(fd, "V " + std::to_string(i) + "\t" + cls + "\t" + path + "\t" + std::to_string(plan.ops.size()) + "->" + std::to_string(best.ops.size()) + " ops in " + std::to_string(tests) + " re-runs\t" + detail);
 		reported++;
+		sh->inflight = UINT64_MAX;
 		// the process may be dirty after a violation: hand the slice back to the parent
 		i += (uint64_t)a.workers;
 		break;
@@ -803,6 +899,14 @@ static int replay_main(Property &prop, const Args &a)
 	if (a.verbose)
 		for (auto &l : o.lines)
 			printf("  | %s\n", l.c_str());
+	if (getenv("JSIM_EMIT_COV"))
+	{
+		for (auto &k : o.cov)
+			printf("COV %s\n", k.c_str());
+		for (auto &kv : o.counters)
+			printf("CNT %s %llu\n", kv.first.c_str(), (unsigned long long)kv.second);
+		printf("NONTRIVIAL %d\n", (int)o.nontrivial);
+	}
 	std::string cls = o.violated ? sanitize_cls(o.v.cls) : std::string("none");
 	printf("REPLAY-RESULT class=%s hash=%s events=%llu\n", cls.c_str(), hex64(o.loghash).c_str(), (unsigned long long)o.nevents);
 	if (o.violated)
@@ -812,7 +916,7 @@ static int replay_main(Property &prop, const Args &a)
 			if (c == '\n')
 				c = ' ';
 		printf("DETAIL %s\n", d.c_str());
-		printf("VIOLATION property=%s replay=%s\n", prop.id(), a.replay.c_str());
+		printf("VIOLATION property=%s replay=%s\n", prop.report_id(), a.replay.c_str());
 		fflush(stdout);
 		return 1;
 	}
@@ -944,6 +1048,7 @@ int driver_main(int argc, char **argv)
 	if (const char *e = getenv("VERIF_WORKERS"))
 		if (*e)
 			a.workers = atoi(e);
+	std::string indices;
 	for (int i = 2; i < argc; i++)
 	{
 		std::string s = argv[i];
@@ -973,6 +1078,8 @@ int driver_main(int argc, char **argv)
 			a.runs_override = atoll(need("--runs"));
 		else if (s == "--one")
 			a.one_index = atoll(need("--one"));
+		else if (s == "--indices")
+			indices = need("--indices");
 		else if (s == "--time-cap")
 			a.time_cap = atoi(need("--time-cap"));
 		else if (s == "--no-evidence")
@@ -997,6 +1104,39 @@ int driver_main(int argc, char **argv)
 	Property &prop = *pp;
 	if (!a.replay.empty())
 		return replay_main(prop, a);
+	if (!indices.empty())
+	{
+		// debugging aid: run the given plan indices one after the other in this process (like one worker would)
+		std::istringstream is(indices);
+		std::string tok;
+		bool first = true;
+		int rc = 0;
+		while (std::getline(is, tok, ','))
+		{
+			uint64_t idx = strtoull(tok.c_str(), nullptr, 10);
+			if (first)
+				prop.process_init(proc_seed_of(a, idx));
+			first = false;
+			Plan p = gen_plan(prop, a, idx);
+			Outcome o = execute_plan(prop, p, a.verbose);
+			if (a.verbose)
+				for (auto &l : o.lines)
+					printf("  | %s\n", l.c_str());
+			uint64_t ch = 1469598103934665603ULL;
+			for (auto &k : o.cov)
+				ch = fnv1a(k.data(), k.size() + 1, ch);
+			for (auto &kv : o.counters)
+			{
+				ch = fnv1a(kv.first.data(), kv.first.size() + 1, ch);
+				ch = fnv1a(&kv.second, sizeof kv.second, ch);
+			}
+			printf("index %llu class=%s hash=%s cov=%s nontrivial=%d %s\n", (unsigned long long)idx, o.violated ? o.v.cls.c_str() : "none", hex64(o.loghash).c_str(), hex64(ch).c_str(),
+			       (int)o.nontrivial, o.violated ? o.v.detail.c_str() : "");
+			if (o.violated)
+				rc = 1;
+		}
+		return rc;
+	}
 	if (a.one_index >= 0)
 	{
 		prop.process_init(proc_seed_of(a, (uint64_t)a.one_index % (uint64_t)a.workers));
@@ -1020,7 +1160,7 @@ int driver_main(int argc, char **argv)
 	fflush(stdout);
 
 	// ---- known findings: replay each listed finding first
-	std::vector<KnownFinding> known = load_known(prop.id());
+	std::vector<KnownFinding> known = load_known(prop.report_id());
 	std::vector<std::string> known_lines;
 	for (auto &k : known)
 	{
@@ -1035,7 +1175,7 @@ int driver_main(int argc, char **argv)
 		}
 		if (reproduced)
 		{
-			std::string l = "KNOWN-FINDING: property=" + std::string(prop.id()) + " " + k.signature + " " + k.what;
+			std::string l = "KNOWN-FINDING: property=" + std::string(prop.report_id()) + " " + k.signature + " " + k.what;
 			printf("%s\n", l.c_str());
 			known_lines.push_back(l);
 		}
@@ -1341,7 +1481,7 @@ int driver_main(int argc, char **argv)
 			if (k.status == "finding" && sig_match(k.signature, v.cls))
 			{
 				listed = true;
-				std::string l = "KNOWN-FINDING: property=" + std::string(prop.id()) + " " + k.signature + " (seen again in exploration, run index " + std::to_string(v.index) + ") " + k.what;
+				std::string l = "KNOWN-FINDING: property=" + std::string(prop.report_id()) + " " + k.signature + " (seen again in exploration, run index " + std::to_string(v.index) + ") " + k.what;
 				bool dup = false;
 				for (auto &x : known_lines)
 					if (x.find(k.signature) != std::string::npos)
@@ -1355,7 +1495,7 @@ int driver_main(int argc, char **argv)
 		if (listed)
 			continue;
 		unlisted++;
-		printf("VIOLATION property=%s replay=%s\n", prop.id(), v.path.c_str());
+		printf("VIOLATION property=%s replay=%s\n", prop.report_id(), v.path.c_str());
 		printf("  class=%s run_index=%llu shrink=%s\n  %s\n", v.cls.c_str(), (unsigned long long)v.index, v.shrink.c_str(), v.detail.c_str());
 		viol_lines.push_back(v.cls + " replay=" + v.path + " :: " + v.detail);
 	}
